@@ -94,6 +94,44 @@ Theorem C19_completed_implies_match : forall cfg servers n owned evs h addrs,
 Proof. exact dns_completed_implies_match. Qed.
 Print Assumptions C19_completed_implies_match.
 
+(* ... and that pending query is, in name, type, port and id, the one start_query(_raw) put into
+   the slot: the completing datagram repeats the question the query was STARTED with, and the CNAME
+   chain (dns_answer_matches) starts at that name within this one datagram *)
+Theorem C19_completed_original_question : forall cfg servers n owned evs h addrs,
+  cfg_ok cfg -> Forall ev_ok evs ->
+  nth_error (ds_queries (dns_run cfg (dns_new cfg servers n owned) evs)) h = Some (Some (QCompleted addrs)) ->
+  exists evs0 evq evm src sp dp pkt evs2 pq0 pq,
+    evs = (evs0 ++ evq :: evm) ++ EvRsp src sp dp pkt :: evs2 /\
+    ((exists name t tx pt, evq = EvQuery name t tx pt) \/ (exists raw t m tx pt, evq = EvQueryRaw raw t m tx pt)) /\
+    nth_error (ds_queries (dns_run cfg (dns_new cfg servers n owned) (evs0 ++ [evq]))) h = Some (Some (QPending pq0)) /\
+    pq_timeout_at pq0 = None /\
+    nth_error (ds_queries (dns_run cfg (dns_new cfg servers n owned) (evs0 ++ evq :: evm))) h = Some (Some (QPending pq)) /\
+    dns_qid pq = dns_qid pq0 /\
+    dns_source_ok (dns_run cfg (dns_new cfg servers n owned) (evs0 ++ evq :: evm)) src sp /\
+    dp = pq_port pq0 /\ dns_header_ok pkt (pq_txid pq0) /\
+    dns_answer_matches cfg pkt pq addrs.
+Proof. exact dns_completed_original_question. Qed.
+Print Assumptions C19_completed_original_question.
+
+(* a datagram never rewrites a pending query: afterwards the slot holds the very same pending
+   query, or the query is finished (repo 4f2a12a) *)
+Theorem C19_response_never_rewrites_query : forall cfg s src sp dp pkt s' acc h pq pq',
+  dns_ingress cfg s src sp dp pkt = Ok (s', acc) ->
+  nth_error (ds_queries s) h = Some (Some (QPending pq)) ->
+  nth_error (ds_queries s') h = Some (Some (QPending pq')) -> pq' = pq.
+Proof. exact dns_ingress_pending_same. Qed.
+Print Assumptions C19_response_never_rewrites_query.
+
+(* no event changes name, type, port or id of a pending query (so every retransmission asks the
+   original question) *)
+Theorem C19_query_identity_stable : forall cfg s ev h pq pq',
+  cfg_ok cfg -> sock_ok cfg s ->
+  nth_error (ds_queries s) h = Some (Some (QPending pq)) ->
+  nth_error (ds_queries (fst (dns_step cfg s ev))) h = Some (Some (QPending pq')) ->
+  dns_qid pq' = dns_qid pq.
+Proof. exact dns_step_qid. Qed.
+Print Assumptions C19_query_identity_stable.
+
 (* the addresses are rdata of A/AAAA records of that datagram *)
 Theorem C19_on_chain_from_records : forall pkt head rs addrs a,
   dns_on_chain pkt head rs addrs -> In a addrs ->
@@ -289,3 +327,12 @@ Theorem C19_example_servers :
   dns_tx_hop (dns_run c19_cfg c19_started [EvHop (Some 7)]) = 7.
 Proof. exact c19_example_servers. Qed.
 Print Assumptions C19_example_servers.
+
+Theorem C19_example_cname_twostep :
+  dns_run c19_cfg c19_started [EvRsp c19_server 53 50000 c19_rsp_cname_cut] = c19_started /\
+  dns_run c19_cfg c19_started [EvRsp c19_server 53 50000 c19_rsp_cname_cut;
+                               EvRsp c19_server 53 50000 c19_rsp_other_question] = c19_started /\
+  (exists st, dns_process_query c19_cfg c19_rsp_cname_cut
+                (mkPending [1; 97; 1; 98; 0] 1 50000 4660 (Some 10000000) 1000000 2000000 0 false) = Ok (QPending st)).
+Proof. exact c19_example_cname_twostep. Qed.
+Print Assumptions C19_example_cname_twostep.
